@@ -52,6 +52,7 @@ type CaseSplit struct {
 type LoopSpec struct {
 	N         int
 	Invs      []*Clause
+	Steps     []*Clause // proved at every back edge (phis still denote the values at the loop head)
 	Decreases *Clause
 }
 
@@ -71,6 +72,8 @@ type FuncSpec struct {
 	PanicsOK  bool
 	Cases     []*CaseSplit
 	Splits    []*Clause // callers fork on these pre-state conditions when using the contract
+	Preserves map[string][]*Clause // function-typed parameter -> regions its calls are assumed to leave unchanged
+	CalleeReq map[string][]*Clause // function-typed parameter -> conditions proved at each call through it (arguments a0, a1, …)
 	IsLemma   bool
 	LemmaParams []PureParam
 }
@@ -219,6 +222,34 @@ func (ss *SpecSet) LoadSpecFile(path, pkgPath string) error {
 			cur.Trusted = true
 		case "notypeinv":
 			cur.NoTypeInv = true
+		case "callee":
+			// callee <param> preserves <item>, <item>…   (ASSUMPTION about function-typed parameters)
+			w1, r1 := splitWord(rest)
+			w2, r2 := splitWord(r1)
+			if cur != nil && w2 == "requires" {
+				cl, err := mk(r2)
+				if err != nil {
+					return err
+				}
+				if cur.CalleeReq == nil {
+					cur.CalleeReq = map[string][]*Clause{}
+				}
+				cur.CalleeReq[w1] = append(cur.CalleeReq[w1], cl)
+				continue
+			}
+			if cur == nil || w2 != "preserves" {
+				return fmt.Errorf("%s: bad callee clause", where)
+			}
+			if cur.Preserves == nil {
+				cur.Preserves = map[string][]*Clause{}
+			}
+			for _, part := range splitTop(r2, ',') {
+				cl, err := mk(part)
+				if err != nil {
+					return err
+				}
+				cur.Preserves[w1] = append(cur.Preserves[w1], cl)
+			}
 		case "split":
 			if cur == nil {
 				return fmt.Errorf("%s: split outside spec", where)
@@ -228,6 +259,15 @@ func (ss *SpecSet) LoadSpecFile(path, pkgPath string) error {
 				return err
 			}
 			cur.Splits = append(cur.Splits, cl)
+		case "step":
+			if curLoop == nil {
+				return fmt.Errorf("%s: step outside loop", where)
+			}
+			cl, err := mk(rest)
+			if err != nil {
+				return err
+			}
+			curLoop.Steps = append(curLoop.Steps, cl)
 		case "requires", "ensures", "modifies", "allocates", "decreases", "invariant":
 			if cur == nil {
 				return fmt.Errorf("%s: clause outside spec", where)
